@@ -77,7 +77,6 @@ def expr_identity(fkey, rel, fn, e, where):
     params = [a.arg for a in fn.args.posonlyargs + fn.args.args + fn.args.kwonlyargs]
     declared = any(isinstance(n, (ast.Global, ast.Nonlocal)) and name in n.names for n in ast.walk(fn))
     if not stores and name not in params:
-        need(not declared or True, "")
         return name, f"`{name}` (module global of {rel}, not assigned by the function)"
     need(not declared, f"{where}: descriptor `{name}` is declared global/nonlocal and assigned in {fkey}")
     need(len(stores) + (name in params) == 1,
